@@ -440,7 +440,9 @@ pub proof fn lemma_avail_post_satisfiable(d: DefV, td: Set<PV>, imp: spec_fn(PV)
     let av = seq![d];
     assert(bucket(a.defs, d.name) == seq![d]);
     assert(p_same(d.file, fs_true())(d));
-    assert(first_match(seq![d], p_same(d.file, fs_true())) == Some(d));
+    assert(is_best(seq![d], p_same(d.file, fs_true()), 0));
+    lemma_best_idx(seq![d], p_same(d.file, fs_true()), 0);
+    assert(best_same(seq![d], p_same(d.file, fs_true())) == Some(d));
     assert(avail_pick(a, d.file, d.name) == Some(d));
     assert forall|n: Seq<char>| n != d.name implies avail_pick(a, d.file, n) is None by {
         assert(bucket(a.defs, n) =~= Seq::<DefV>::empty());
